@@ -4,7 +4,7 @@ import dsgcase, procdrive
 from props import C02 as _c02
 
 
-def make_batches(pid, kinds, n_quick, n_thorough, cons_prob=0.0, n_dv=(0, 2), out_of_range=False):
+def make_batches(pid, kinds, n_quick, n_thorough, cons_prob=0.0, n_dv=(0, 2), out_of_range=False, doomed_prob=0.12):
     def batches(tier, seed):
         rng = rng_for(seed, pid)
         n = n_quick if tier == 'quick' else n_thorough
@@ -13,9 +13,18 @@ def make_batches(pid, kinds, n_quick, n_thorough, cons_prob=0.0, n_dv=(0, 2), ou
             # three quarters of the graphs are drawn (by rejection) outside the known-finding classes, where any
             # mismatch is a new violation; the rest exercise the guarded classes too
             want_clean = rng.random() < 0.75
-            for _try in range(40):
+            doomed = rng.random() < doomed_prob
+            for _try in range(60):
                 c = dsgcase.gen_sel(rng, max_nodes=10, cons_prob=cons_prob)
-                if not want_clean or not dsgcase.guards(c):
+                g = dsgcase.guards(c)
+                if doomed:
+                    if g:
+                        continue
+                    c2 = dsgcase.add_doomed_option(rng, c)
+                    if c2 is not None and dsgcase.guards(c2) == {'K8'}:
+                        c = c2
+                        break
+                elif not want_clean or not g:
                     break
             c = procdrive.decorate(rng, c, n_dv=n_dv)
             c['_i'] = i
@@ -35,7 +44,7 @@ def make_run_case(clauses, vec_limit=48):
         if r.get('skip'):
             return r
         r.setdefault('tags', []).append('guard:%s' % _c02.known_guard(c))
-        mine = [f for f in r.get('fails', []) if f['clause'] in clauses or f['clause'] == 'model-error']
+        mine = [f for f in r.get('fails', []) if f['clause'].split(':')[0] in clauses or f['clause'] == 'model-error']
         other = [f for f in r.get('fails', []) if f not in mine]
         for f in other:
             r['tags'].append('other-property-clause:' + f['clause'])
